@@ -7,6 +7,7 @@
  *   ALG   1 mh_sha1 | 2 mh_sha256 | 3 mh_sha1_murmur3_x64_128
  *   FAM   base | sse | avx | avx2 | avx512          (family whose entry points are called)
  *   SCEN  1 update | 2 finalize | 3 init | 4 public wrappers (isal_* and legacy names, NULL arguments)
+ *   CTXOFF  byte offset of the context from a 64-byte boundary (ALIGN_64 of the frame buffer)
  *   BEYOND  (observation runs only) stream totals >= 2^32 instead of < 2^32
  *
  * Model.  The message of the context is a *stream*.  Ghost state: T0 (stream bytes accepted before the
@@ -19,7 +20,13 @@
  * tracked byte position `trk` that is arbitrary (so the assertion covers every byte), the final hash
  * over the segment digests by a stub that returns fresh values which must arrive in the caller's
  * digest buffer.  In the native replay (-DREPLAY) the same harness runs the same real glue with the
- * clear operations really performed. */
+ * clear operations really performed.
+ *
+ * Encoding notes (measured): the context is a typed static object and the harness touches it only at
+ * constant offsets, except for the one tracked byte (each access at a symbolic offset costs a byte
+ * operation over the whole 3.6 KB object); the stubs never fall back to the libc models of memcpy / memset
+ * (a libc call of symbolic length is encoded even on an infeasible path: 900 k variables, minutes); with that
+ * an update step takes ~2 s and a finalize step ~8 s (cadical). */
 #include "verif.h"
 #include <string.h>
 #include <assert.h>
@@ -159,7 +166,7 @@ static void *mh_memset(void *dst, int ch, size_t n)
         VASSERT(n <= 2 * BLK - doff, "C08:mh-clear:stays-inside-the-2048-byte-partial-block-buffer");
 #if SCEN == 1
         if (n > 0 && doff < pbl) {
-                VASSERT(pbs + pbl <= H, "C05,C10:mh-clear:only-bytes-already-hashed-are-discarded");
+                VASSERT(0, "C05,C10:mh-clear:carried-bytes-not-yet-hashed-are-never-discarded");
                 pbl = (uint32_t) doff;
         }
 #endif
@@ -237,6 +244,20 @@ static void check_tail_block(const uint8_t *ptr)
 }
 #endif
 
+#if SCEN == 1
+/* once the carried block has been handed to the block function(s) the buffer is logically empty, whether or not the glue clears it */
+static void consume_carried_block(void)
+{
+#if ALG == 3
+        if (pbl == BLK && H == pbs + BLK && Mpos == pbs + BLK)
+                pbl = 0;
+#else
+        if (pbl == BLK && H == pbs + BLK)
+                pbl = 0;
+#endif
+}
+#endif
+
 static void log_block(const uint8_t *ptr, void *digests, uint8_t *frame, uint32_t nb)
 {
         n_block++;
@@ -252,6 +273,7 @@ static void log_block(const uint8_t *ptr, void *digests, uint8_t *frame, uint32_
 #if SCEN == 1
                 VASSERT(pbl == BLK && pbs == H, "C05,C10:block:carried-block-is-complete-and-next-in-stream-order");
                 H += BLK;
+                consume_carried_block();
 #elif SCEN == 2
                 if (ptr == pb)
                         check_tail_block(ptr);
@@ -302,6 +324,9 @@ static void log_murmur_block(const uint8_t *ptr, uint32_t nunits, uint32_t *md)
         }
         VASSERT(pos == Mpos, "C10:murmur-block:16-byte-units-in-stream-order-exactly-once");
         Mpos += nbytes;
+#if SCEN == 1
+        consume_carried_block();
+#endif
         murmur_new_token(md);
 }
 #endif
